@@ -40,6 +40,8 @@ pub struct ChainCfg {
     pub genesis_difficulty: u64,
     pub epoch_duration_target: u64,
     pub max_proposals: Option<u64>,
+    /// consensus max_block_cycles (None = the builder's default)
+    pub max_block_cycles: Option<u64>,
 }
 
 impl Default for ChainCfg {
@@ -53,6 +55,7 @@ impl Default for ChainCfg {
             genesis_difficulty: 1000,
             epoch_duration_target: 4 * 60 * 60,
             max_proposals: None,
+            max_block_cycles: None,
         }
     }
 }
@@ -119,6 +122,9 @@ pub fn make_consensus(cfg: &ChainCfg) -> (Consensus, Vec<TransactionView>) {
         .epoch_duration_target(cfg.epoch_duration_target);
     if let Some(n) = cfg.max_proposals {
         builder = builder.max_block_proposals_limit(n);
+    }
+    if let Some(c) = cfg.max_block_cycles {
+        builder = builder.max_block_cycles(c);
     }
     let consensus = builder.build();
     (consensus, funds)
